@@ -39,10 +39,13 @@ def run(ctx, crate):
         table = {}
         default_ty = None
         non_type = None
+        rows = []
         for g, v in S.ret_table(b, names):
-            if g is None or len(g) != 1:
+            if g is None or not g:
                 obs.append(Ob("R10.sizes", SIZE_FN, "arm with guard %s" % S.guard_str(g), False))
                 continue
+            rows += [([c_], v) for c_ in g]  # one arm reached on several paths (`_ => 256` of a nested match): one row per path
+        for g, v in rows:
             conj = g[0]
             vs = None
             for a in conj:
@@ -53,9 +56,9 @@ def run(ctx, crate):
                     pv = core.mk_proj(tyterm, ("dc", nme))
                     table[nme] = show(v, {pv: "P"})
             elif any(a.startswith("!is(ty; ") for a in conj):
-                default_ty = show(v)
+                default_ty = show(v) if default_ty in (None, show(v)) else "conflicting defaults"
             elif any(a.startswith("!is(arg1; Type") for a in conj):
-                non_type = show(v)
+                non_type = show(v) if non_type in (None, show(v)) else "conflicting defaults"
             else:
                 obs.append(Ob("R10.sizes", SIZE_FN, "unrecognised arm %s" % S.guard_str(g), False))
         for var in adt["variants"]:
@@ -117,83 +120,109 @@ def run(ctx, crate):
         clones = [s for s in ss if s.path == "std::clone::Clone::clone" and s.fn and "Vec<u16>" in (s.fn["gargs"][0] if s.fn.get("gargs") else "")]
         pushes = [s for s in ss if s.path == "std::vec::Vec::<T, A>::push"]
         ok = len(cnt) == 2 and len(sorts) == 1 and len(clones) == 1 and len(pushes) == 1
+        if len(cnt) == 2 and len(sorts) == 1 and len(clones) == 0 and len(pushes) == 1:
+            # no copy at all: the declared order is counted before the list is sorted in place, the sorted order after
+            lst = pushes[0].args[0]
+            so = sorts[0]
+            before = [s for s in cnt if s.args and s.args[0] == lst and d.dominates(s.bb, so.bb) and s.bb != so.bb and not d.reaches_acyclic(so.bb, s.bb)]
+            after = [s for s in cnt if s.args and s.args[0] == lst and d.dominates(so.bb, s.bb) and s.bb != so.bb]
+            fill_done = len(d.loops_of(pushes[0].bb)) == len(d.loops_of(so.bb)) + 1 and all(len(d.loops_of(s.bb)) == len(d.loops_of(so.bb)) for s in cnt)
+            seq_ok = len(before) == 1 and len(after) == 1 and so.args[0] == lst and fill_done
+            obs.append(Ob("R10.report", fn, "declared order = the list (or its clone) that is not sorted; the clone is taken before the in-place sort", seq_ok,
+                          expected="count(list) taken before list.sort(), count(list) taken after it", found="before=%d after=%d" % (len(before), len(after))))
+            cmp_ok, cmp_found = False, None
+            if seq_ok:
+                want = ("bin", "Gt", before[0].result, after[0].result)
+                if kind == "struct":
+                    rv = d.val_local(0)
+                    cmp_ok, cmp_found = rv == want, show(rv)[:120]
+                else:
+                    ins = [s for s in ss if s.path.endswith("::insert") and s.args and s.args[0] == d.val_local(0)]
+                    if len(ins) == 1:
+                        raw = core.block_guard_atoms(d, ins[0].bb) or []
+                        atoms = [a for c_ in raw for a in c_ if a[0] in ("true", "false")]
+                        cmp_ok = len(raw) == 1 and len(atoms) == 1 and S.norm_atom(atoms[0]) == S.norm_atom(("true", want))  # (`!(a <= b)` is `a > b`)
+                        cmp_found = S.guard_str(ins[0].guard)[-160:]
+            obs.append(Ob("R10.report", fn, "reported iff counter(declared) > counter(sorted)", cmp_ok, expected="slots(declared) > slots(sorted)", found=cmp_found))
+            ok = "noclone"
         if not ok:
             obs.append(Ob("R10.report", fn, "shape: one list, one clone, one sort, two counter calls", False,
                           found="counter=%d sort=%d clone=%d push=%d" % (len(cnt), len(sorts), len(clones), len(pushes))))
             continue
-        lst = pushes[0].args[0]
-        cl, so = clones[0], sorts[0]
-        same_list = cl.args[0] == lst and so.args[0] == lst
-        # clone taken before the sort, after the list is complete (outside the filling loop)
-        order_ok = d.dominates(cl.bb, so.bb) and cl.bb != so.bb and d.loops_of(cl.bb) == d.loops_of(so.bb) \
-            and len(d.loops_of(pushes[0].bb)) == len(d.loops_of(cl.bb)) + 1 and d.dominates(pushes[0].bb, cl.bb) is False \
-            and all(d.dominates(h, cl.bb) for h in d.loops_of(pushes[0].bb)[-1:])
-        # which counter call gets the clone / the sorted list: resolve the operand's origin local
-        def origin(site):
-            o = site.term["args"][0]
-            if o["k"] not in ("copy", "move"):
-                return None
-            l = o["p"]["l"]
-            seen = set()
-            while l not in seen:
-                seen.add(l)
-                ds = [x for x in d.defs.get(l, []) if x[2] == []]
-                if len(ds) == 1 and ds[0][3] == "rv" and ds[0][4]["k"] == "use" and ds[0][4]["o"]["k"] in ("copy", "move") and not ds[0][4]["o"]["p"]["pr"]:
-                    l = ds[0][4]["o"]["p"]["l"]
-                    continue
-                if len(ds) == 1 and ds[0][3] == "call":
-                    return ("call", ds[0][0])
-                return ("local", l)
-            return None
-        def origin_of_local(l):
-            seen = set()
-            while l not in seen:
-                seen.add(l)
-                ds = [x for x in d.defs.get(l, []) if x[2] == []]
-                if len(ds) == 1 and ds[0][3] == "rv" and ds[0][4]["k"] == "use" and ds[0][4]["o"]["k"] in ("copy", "move") and not ds[0][4]["o"]["p"]["pr"]:
-                    l = ds[0][4]["o"]["p"]["l"]
-                    continue
-                if len(ds) == 1 and ds[0][3] == "rv" and ds[0][4]["k"] == "ref" and all(e == "deref" for e in ds[0][4]["p"]["pr"]):
-                    l = ds[0][4]["p"]["l"]
-                    continue
-                if len(ds) == 1 and ds[0][3] == "call" and (d.callee(ds[0][4]) or {}).get("path") in ("std::ops::DerefMut::deref_mut", "std::ops::Deref::deref"):
-                    a0 = ds[0][4]["args"][0]
-                    if a0["k"] in ("copy", "move"):
-                        l = a0["p"]["l"]
+        if ok != "noclone":
+            lst = pushes[0].args[0]
+            cl, so = clones[0], sorts[0]
+            same_list = cl.args[0] == lst and so.args[0] == lst
+            # clone taken before the sort, after the list is complete (outside the filling loop)
+            order_ok = d.dominates(cl.bb, so.bb) and cl.bb != so.bb and d.loops_of(cl.bb) == d.loops_of(so.bb) \
+                and len(d.loops_of(pushes[0].bb)) == len(d.loops_of(cl.bb)) + 1 and d.dominates(pushes[0].bb, cl.bb) is False \
+                and all(d.dominates(h, cl.bb) for h in d.loops_of(pushes[0].bb)[-1:])
+            # which counter call gets the clone / the sorted list: resolve the operand's origin local
+            def origin(site):
+                o = site.term["args"][0]
+                if o["k"] not in ("copy", "move"):
+                    return None
+                l = o["p"]["l"]
+                seen = set()
+                while l not in seen:
+                    seen.add(l)
+                    ds = [x for x in d.defs.get(l, []) if x[2] == []]
+                    if len(ds) == 1 and ds[0][3] == "rv" and ds[0][4]["k"] == "use" and ds[0][4]["o"]["k"] in ("copy", "move") and not ds[0][4]["o"]["p"]["pr"]:
+                        l = ds[0][4]["o"]["p"]["l"]
                         continue
-                if len(ds) == 1 and ds[0][3] == "call":
-                    return ("call", ds[0][0])
-                return ("local", l)
-            return None
-        # which of the two lists (the original or its clone) is sorted in place: the other one is the declared order
-        so_arg = so.term["args"][0]
-        sorted_origin = origin_of_local(so_arg["p"]["l"]) if so_arg["k"] in ("copy", "move") else None
-        o_sorted = [s for s in cnt if origin(s) == sorted_origin]
-        o_decl = [s for s in cnt if s not in o_sorted]
-        clone_origin = ("call", cl.bb)
-        if not (len(o_decl) == 1 and len(o_sorted) == 1 and clone_origin in (origin(o_decl[0]), origin(o_sorted[0])) and origin(o_decl[0]) != origin(o_sorted[0])):
-            o_decl, o_sorted = [], []
-        after_sort = all(d.dominates(so.bb, s.bb) for s in o_sorted) and len(o_sorted) == 1 and len(o_decl) == 1
-        obs.append(Ob("R10.report", fn, "declared order = the list (or its clone) that is not sorted; the clone is taken before the in-place sort", same_list and order_ok and after_sort,
-                      expected="copy = sizes.clone(); exactly one of the two is sorted afterwards; compare counter(unsorted) with counter(sorted)",
-                      found="same_list=%s clone_before_sort=%s sorted_list_counted_after_sort=%s" % (same_list, order_ok, after_sort)))
-        # the comparison
-        cmp_ok = False
-        cmp_found = None
-        if len(o_decl) == 1 and len(o_sorted) == 1:
-            want = ("bin", "Gt", o_decl[0].result, o_sorted[0].result)
-            if kind == "struct":
-                rv = d.val_local(0)
-                cmp_ok = rv == want
-                cmp_found = show(rv)[:120]
-            else:
-                ins = [s for s in ss if s.path.endswith("::insert") and s.args and s.args[0] == d.val_local(0)]
-                if len(ins) == 1:
-                    raw = core.block_guard_atoms(d, ins[0].bb) or []
-                    atoms = [a for c_ in raw for a in c_ if a[0] in ("true", "false")]
-                    cmp_ok = len(raw) == 1 and ("true", want) in atoms and len([a for a in atoms]) == 1
-                    cmp_found = S.guard_str(ins[0].guard)[-160:]
-        obs.append(Ob("R10.report", fn, "reported iff counter(declared) > counter(sorted)", cmp_ok, expected="slots(declared) > slots(sorted)", found=cmp_found))
+                    if len(ds) == 1 and ds[0][3] == "call":
+                        return ("call", ds[0][0])
+                    return ("local", l)
+                return None
+            def origin_of_local(l):
+                seen = set()
+                while l not in seen:
+                    seen.add(l)
+                    ds = [x for x in d.defs.get(l, []) if x[2] == []]
+                    if len(ds) == 1 and ds[0][3] == "rv" and ds[0][4]["k"] == "use" and ds[0][4]["o"]["k"] in ("copy", "move") and not ds[0][4]["o"]["p"]["pr"]:
+                        l = ds[0][4]["o"]["p"]["l"]
+                        continue
+                    if len(ds) == 1 and ds[0][3] == "rv" and ds[0][4]["k"] == "ref" and all(e == "deref" for e in ds[0][4]["p"]["pr"]):
+                        l = ds[0][4]["p"]["l"]
+                        continue
+                    if len(ds) == 1 and ds[0][3] == "call" and (d.callee(ds[0][4]) or {}).get("path") in ("std::ops::DerefMut::deref_mut", "std::ops::Deref::deref"):
+                        a0 = ds[0][4]["args"][0]
+                        if a0["k"] in ("copy", "move"):
+                            l = a0["p"]["l"]
+                            continue
+                    if len(ds) == 1 and ds[0][3] == "call":
+                        return ("call", ds[0][0])
+                    return ("local", l)
+                return None
+            # which of the two lists (the original or its clone) is sorted in place: the other one is the declared order
+            so_arg = so.term["args"][0]
+            sorted_origin = origin_of_local(so_arg["p"]["l"]) if so_arg["k"] in ("copy", "move") else None
+            o_sorted = [s for s in cnt if origin(s) == sorted_origin]
+            o_decl = [s for s in cnt if s not in o_sorted]
+            clone_origin = ("call", cl.bb)
+            if not (len(o_decl) == 1 and len(o_sorted) == 1 and clone_origin in (origin(o_decl[0]), origin(o_sorted[0])) and origin(o_decl[0]) != origin(o_sorted[0])):
+                o_decl, o_sorted = [], []
+            after_sort = all(d.dominates(so.bb, s.bb) for s in o_sorted) and len(o_sorted) == 1 and len(o_decl) == 1
+            obs.append(Ob("R10.report", fn, "declared order = the list (or its clone) that is not sorted; the clone is taken before the in-place sort", same_list and order_ok and after_sort,
+                          expected="copy = sizes.clone(); exactly one of the two is sorted afterwards; compare counter(unsorted) with counter(sorted)",
+                          found="same_list=%s clone_before_sort=%s sorted_list_counted_after_sort=%s" % (same_list, order_ok, after_sort)))
+            # the comparison
+            cmp_ok = False
+            cmp_found = None
+            if len(o_decl) == 1 and len(o_sorted) == 1:
+                want = ("bin", "Gt", o_decl[0].result, o_sorted[0].result)
+                if kind == "struct":
+                    rv = d.val_local(0)
+                    cmp_ok = rv == want
+                    cmp_found = show(rv)[:120]
+                else:
+                    ins = [s for s in ss if s.path.endswith("::insert") and s.args and s.args[0] == d.val_local(0)]
+                    if len(ins) == 1:
+                        raw = core.block_guard_atoms(d, ins[0].bb) or []
+                        atoms = [a for c_ in raw for a in c_ if a[0] in ("true", "false")]
+                        cmp_ok = len(raw) == 1 and len(atoms) == 1 and S.norm_atom(atoms[0]) == S.norm_atom(("true", want))  # (`!(a <= b)` is `a > b`)
+                        cmp_found = S.guard_str(ins[0].guard)[-160:]
+            obs.append(Ob("R10.report", fn, "reported iff counter(declared) > counter(sorted)", cmp_ok, expected="slots(declared) > slots(sorted)", found=cmp_found))
         # list construction: size of every member in declaration order
         p = pushes[0]
         val = p.args[1]
